@@ -180,10 +180,14 @@ CHECKS["C08"] = dict(
           "ModelingObject.__setattr__ and replace_in_mod_obj_container_without_recomputation: after any sequence of "
           "these operations that does not raise, every attached value is listed by each recorded ancestor, every listed "
           "child is attached and records the parent, ids are unique (links_mirrored_after_any_operations); swapping "
-          "detach/attach breaks it (attach_before_detach_breaks_links). K-bookkeeping runs the model and the real code on "
+          "detach/attach breaks it (attach_before_detach_breaks_links); replacing a dict-held value keeps them when ids "
+          "are unique (replace_in_dict_keeps_links_mirrored; no_relink_breaks_links = seed C05-a; shared_id_breaks_mirror "
+          "= root of D2); a whole update whose order satisfies the checker's conditions leaves every attribute's value "
+          "recording exactly the values currently held by what it reads, so every recorded ancestor is live "
+          "(accepted_update_keeps_graph_consistent, build_gives_consistent_graph). K-bookkeeping runs the model and the real code on "
           "the same random operation sequences; graphInv is evaluated by Lean on graphs exported after builds, "
           "histories, simulations and toggles. Completeness (true reads ⊆ recorded ancestors) is tested by perturbation "
-          "only; values held in per-usage-pattern dicts and lists are not in Model F. Findings D2, D6, D13 are known."),
+          "only; list-held values are not in Model F. Findings D2, D6, D13 are known."),
     design="§7 C08")
 CHECKS["C15"] = dict(
     technique="Lean 4 recovery theorem in the abstract recomputation theory + failing-edit / injected-crash-point oracle",
